@@ -280,7 +280,7 @@ def rule_E4(run_, pkg, an):
                        "%s.%s hands out %s by reference; the accumulator adds into the first contribution in place" % (cname, m, ", ".join(bad)),
                        where="%s:%d" % (fn._gs_module, fn.lineno))
     # the accumulator must only mutate what it was given (its own dictionaries)
-    upd = pkg.own_method("_Chi2GradientHessian", "update")
+    upd = pkg.own_method_alias("_Chi2GradientHessian", "update")
     if upd is None:
         run_.error("anchor vanished: _Chi2GradientHessian.update")
         return
